@@ -428,7 +428,7 @@ class C05:
     cases = {"quick": 700, "thorough": 25000}
     rule = ("a fully annotated world (classes A, B <: A, U with typed fields and methods, typed variables) plus one generated "
             "target (function with 0-3 parameters of Int/Float/Str/Bool/A/B/U/Any and primitive defaults, method, constructor, "
-            "annotated definition, or function/method with declared return type whose value comes from the tail, from one branch "
+            "annotated definition (also one that re-defines a visible name and mentions the old variable in its initialiser), or function/method with declared return type whose value comes from the tail, from one branch "
             "of an if, or from an explicit return) and one use of it planted at one of 12 positions (top level, function body, "
             "method body, for/while body, then/else branch, match arm/default, handle arm, if nested in a function, loop nested in a "
             "method). 5/7 of the cases apply one single-point mutation: too many / too few arguments, an argument of a definitely "
